@@ -4,14 +4,14 @@
 N=${1:-8}
 cd /verif
 export VERIF_DEV_NO_KANI=1 VERIF_DEV_NO_NATIVE=1
-ls -d neutral/*/ | sed 's#neutral/##; s#/##' > /tmp/neutral_cross.list
+ls -d neutral/*/ | sed "s#neutral/##; s#/##" | grep -E -e "${FILTER:-.}" > /tmp/neutral_cross_${WT_PREFIX:-repo-x}.list
 for i in $(seq 1 $N); do
-  wt=/var/tmp/repo-x$i
+  wt=/var/tmp/${WT_PREFIX:-repo-x}$i
   [ -d $wt ] || { git -C /repo worktree add --detach $wt HEAD -q; cp /repo/Cargo.lock $wt/; }
   (
-    export ANEMO_REPO=$wt VERIF_EVIDENCE_DIR=/var/tmp/anemo-verif-matrix/ev$i VERIF_REPLAY_DIR=/var/tmp/anemo-verif-matrix/rp$i
+    export ANEMO_REPO=$wt VERIF_EVIDENCE_DIR=/var/tmp/anemo-verif-matrix/${WT_PREFIX:-repo-x}-ev$i VERIF_REPLAY_DIR=/var/tmp/anemo-verif-matrix/${WT_PREFIX:-repo-x}-rp$i
     mkdir -p $VERIF_EVIDENCE_DIR $VERIF_REPLAY_DIR
-    awk -v n=$N -v i=$i 'NR % n == i % n' /tmp/neutral_cross.list | while read id; do
+    awk -v n=$N -v i=$i 'NR % n == i % n' /tmp/neutral_cross_${WT_PREFIX:-repo-x}.list | while read id; do
       git -C $wt checkout -q -- . ; git -C $wt clean -qfd crates
       git -C $wt apply /verif/neutral/$id/patch.diff 2>/dev/null || { echo "$id: patch does not apply"; continue; }
       for p in C01 C02 C03 C04 C05 C06 C07 C09 C10 C11 C12 C13 C14 C15 C16 C17 C18 C19 C20; do
@@ -20,8 +20,8 @@ for i in $(seq 1 $N); do
       echo "$id done"
     done
     git -C $wt checkout -q -- . ; git -C $wt clean -qfd crates
-  ) > /tmp/neutral_cross_$i.log 2>&1 &
+  ) > /tmp/neutral_cross_${WT_PREFIX:-repo-x}_$i.log 2>&1 &
 done
 wait
-cat /tmp/neutral_cross_*.log | grep -v " done$"
-echo "cross-check finished: $(cat /tmp/neutral_cross_*.log | grep -c ' done$') patches"
+cat /tmp/neutral_cross_${WT_PREFIX:-repo-x}_*.log | grep -v " done$"
+echo "cross-check finished: $(cat /tmp/neutral_cross_${WT_PREFIX:-repo-x}_*.log | grep -c ' done$') patches"
